@@ -567,11 +567,14 @@ func (e *Exec) doPersist(c *Cmd) string {
 
 type failWriter struct {
 	buf   bytes.Buffer
-	limit int // fail once more than limit bytes would have been written; <0 never
+	limit int  // fail once more than limit bytes would have been written; <0 never
+	once  bool // a transient fault: only the one write that crosses the limit fails, later writes succeed
+	fired bool
 }
 
 func (w *failWriter) Write(p []byte) (int, error) {
-	if w.limit >= 0 && w.buf.Len()+len(p) > w.limit {
+	if w.limit >= 0 && w.buf.Len()+len(p) > w.limit && !(w.once && w.fired) {
+		w.fired = true
 		n := w.limit - w.buf.Len()
 		if n < 0 {
 			n = 0
@@ -591,7 +594,7 @@ func (e *Exec) doWriteTo(c *Cmd) string {
 	if !ok {
 		return "scripterror:notbase"
 	}
-	fw := &failWriter{limit: c.num("fail", -1)}
+	fw := &failWriter{limit: c.num("fail", -1), once: c.str("once", "0") == "1"}
 	var n int64
 	if bs := c.num("bufio", 0); bs > 0 {
 		// the caller's own buffered writer (of any size), flushed by the caller afterwards
@@ -1573,6 +1576,17 @@ func (e *Exec) expand(c *Cmd, out *bufio.Writer) {
 		}
 		for _, bs := range bsizes {
 			emit(fmt.Sprintf("writeto %s wtmp bufio=%d", seg, bs))
+		}
+		// transient faults: exactly one write fails (the one that crosses the offset), every later
+		// one succeeds - the failure must still come back to the caller
+		for _, l := range sortedInts(limits) {
+			if l < 0 || l >= full || (l%5 != 0 && l < full-60) {
+				continue
+			}
+			emit(fmt.Sprintf("writeto %s wtmp fail=%d full=%d once=1", seg, l, full))
+			if l%10 == 0 {
+				emit(fmt.Sprintf("writeto %s wtmp fail=%d full=%d once=1 bufio=%d", seg, l, full, bsizes[(l/10)%len(bsizes)]))
+			}
 		}
 	case "mergefaults", "mergecancel":
 		file := c.Pos[0]
